@@ -216,3 +216,4 @@ def corpus_run(run, tier, want):
     run.extra["corpus_cases"] = len(cases)
 
 import props_mem  # noqa: E402  (registers C27)
+import props_coh  # noqa: E402  (registers C19, C20)
